@@ -67,6 +67,22 @@ JudgeConc(e) ==
 JudgeRestart(e) ==
   Tag(<<store', hidx', count', last'>> = <<store, hidx, count, last>>, "Restart.changed")
 
+(* the process died inside a call, before its k-th store write, and was restarted over the same
+   stores: what the restarted node holds is what the model leaves behind (the repaired save() and
+   remove() write one batch each: all of a call's writes or none; a fork switch is a sequence of
+   such calls) *)
+JudgeCrash(e) ==
+  LET pre == Rec4(store, hidx, count, last)
+      out == CASE e.call = "Add" ->
+                    IF ~store[e.g].present /\ e.pre = last /\ count < MaxCount
+                      THEN {pre, AddPost(store, hidx, count, last, e.g)} ELSE {pre}
+               [] e.call = "Remove" ->
+                    IF last # Genesis THEN {pre, RemovePost(store, hidx, count, last)} ELSE {pre}
+               [] e.call = "Fork" ->
+                    IF store[e.g].present THEN ForkStatesP(store, hidx, count, last, e.g, e.ids, e.pres) ELSE {pre}
+               [] OTHER -> {pre}
+  IN Tag(Rec4(store', hidx', count', last') \in out, "Crash.outcome-not-in-model")
+
 (* the property itself, evaluated on what the API answered *)
 JudgeInv(e) ==
   LET st == e.state
@@ -92,6 +108,8 @@ Judge(e) ==
      [] e.event = "Readers" -> (* lookups from several goroutines at once, no writer *)
                                Tag(e.mismatches = 0, "Inv.ConcurrentLookupsAgree") \o
                                Tag(<<store', hidx', count', last'>> = <<store, hidx, count, last>>, "Readers.changed")
+     [] e.event = "Crash"   -> JudgeCrash(e)
+     [] e.event = "RestartFailed" -> <<"Inv.NodeCannotRestart">>   \* initGroupChain died over these stores
      [] e.event = "Reset"   -> <<>>
      [] OTHER               -> <<"unknown-event">>) \o JudgeInv(e)
 
